@@ -64,7 +64,7 @@ func checkC03(c *Ctx) Meta {
 	c.Rule("C03-AUTH", "every secret-revealing or mutating wallet operation is dominated by a successful check of the caller's passphrase against the current credential: unlock, export, delete, private/public passphrase change, the passphrase of an imported file, and the same-passphrase gate of new and imported keystores", 10)
 	c.Rule("C03-CURRENT", "the credential compared against (salted hash, scrypt parameters) is written only by unlock, passphrase change, load and the eraser; the unlocked flags are raised only by updatePrivKeys and Unlock", 3)
 	c.Rule("C03-ERASE", "every private-hierarchy field that any function fills is zeroed (and dropped) by clearPrivKeys; Lock erases every keystore and clears the unlocked flag", 7)
-	c.Rule("C03-DERIVED", "a key-decrypting key derived from the private passphrase does not survive an operation that leaves the wallet locked: every derive is followed, on all paths to the operation's return, by unlocking or by Zero()", 3)
+	c.Rule("C03-DERIVED", "a key-decrypting key derived from the private passphrase does not survive an operation that leaves the wallet locked: every derive is followed, on all paths to the operation's return, by unlocking or by Zero(); the derived key is shared by reference, never copied out of the object that is zeroed", 4)
 	c.Rule("C03-SCRATCH", "every scratch copy of a private-passphrase-derived key (unmarshalMasterPrivKey target, secretKeyGen result that becomes the stored private master key) is zeroed on every path from its derivation to the function's return, unless it is the key handed to the keystores by ChangePrivPassphrase", 5)
 	c.Rule("C03-ATOMIC", "the private passphrase governs all keystores: ChangePrivPassphrase re-encrypts every keystore inside one transaction, Unlock checks every keystore, and a keystore added to an unlocked manager is unlocked with it", 4)
 
@@ -656,6 +656,22 @@ func checkDerivedKeyLifetime(c *Ctx) {
 				if r(ret) {
 					bad = true
 				}
+			}
+			// the key bytes must stay inside the object that gets zeroed: no read of its Key field here
+			copied := ""
+			for _, g := range withClosures(f) {
+				for _, a := range fieldAccesses(g) {
+					if a.Field == "Key" && strings.HasSuffix(a.Type, "snacl.SecretKey") && (a.Kind == "load" || a.Kind == "addr" || a.Kind == "addrarg") {
+						if backSlice(a.Base).has(newKey) || sameOriginValue(g, a.Base, newKey) {
+							copied = c.Pos(a.In.Pos())
+						}
+					}
+				}
+			}
+			if copied != "" {
+				c.Bad(rule, key+":bytes-stay-in-the-zeroed-object", copied, "the bytes of the freshly derived key are read out of the key object (copied into the keystores' own key objects): zeroing the original on the locked path leaves the copies derived — a locked wallet then holds a key-decrypting key for every keystore")
+			} else {
+				c.OK(rule, key+":bytes-stay-in-the-zeroed-object", c.Pos(gen.Pos()), "the derived key is installed by reference only; the object zeroed is the object the keystores hold")
 			}
 			if bad {
 				c.Bad(rule, key, c.Pos(gen.Pos()), "the scrypt key derived from the new private passphrase is installed as masterKeyPriv of every keystore and the operation can return with it still derived while the wallet is locked (no Zero() on the locked path / error paths)")
